@@ -9,7 +9,7 @@ from ..kinds import node_containing
 from ..lexmodel import LexModel
 from ..model import AnalysisError, attr_chain, is_self_attr, norm, short, walk_local
 from ..pmodel import LEX_CONSUME, ParserModel
-from ..report import Ctx
+from ..report import Ctx, SubCtx, run_shared
 from ..rx import Auto, sre_c, sre_parse
 from ..tokbuf import FillModel
 from ..vmodel import VisitorModel
@@ -266,6 +266,14 @@ def run(ctx: Ctx) -> None:
             ctx.ob("R10.6", f"parser:CxxParser.{fname}|`{short(n.stmt, 50)}`", not bad,
                    msg=f"current_location() is read and {bad[:1]} is delivered without any token being consumed in between: the location is that of the token after the declaration",
                    node=n.stmt, mod=mod)
+
+    # ---------------------------------------------------------------- R10.8
+    # "the real ones": the lexer counts "\n"; what the text goes through before it is lexed must not change how many line
+    # ends a line has (CRLF turned into two line ends counts every line twice).  C09's carriage-return rule R9.5,
+    # evaluated here under this property's id.
+    if not isinstance(ctx, SubCtx):
+        from . import c09 as _c09
+        run_shared(ctx, _c09.run, {"R9.5": ("R10.8", "line-end normalisation before lexing keeps one line end per line (CR LF becomes one LF; nothing else is turned into a line end)")})
 
 
 def _stores_location_directly(n: Node) -> bool:
